@@ -26,7 +26,7 @@ RULE = ('random operation histories (length 30-200) over a pool of up to 6 '
         'history touches >= 3 trees; distinct = fingerprint of the history '
         'seed.')
 FLOOR = {'quick': 1000, 'thorough': 30000}
-REQUIRED_REACH = ['DiffXDOMReader.parse', 'DiffXDOMWriter.write_stream']
+REQUIRED_REACH = ['dom/reader.py:', 'dom/writer.py:']
 REQUIRED_COUNTERS = ['op:parse_shared_reader', 'op:serialise_shared_writer',
                      'op:mutate_meta_in_place', 'op:mutate_options_in_place',
                      'snapshots_compared', 'alias_scans']
@@ -217,7 +217,13 @@ class World(object):
         def f():
             m = sec.meta
             r = self.rng.random()
-            if r < 0.4 or not m:
+            if r < 0.12:
+                # values json can write but that are not JSON-native; a
+                # serialiser must not "normalise" the caller's objects
+                m['py%d' % self.rng.randrange(3)] = self.rng.choice([
+                    {1: 'int key', 2: [3, (4, 5)]}, (1, 2, ('a', 'b')),
+                    [{7: {8: 'deep'}}], {True: 'bool key'}])
+            elif r < 0.4 or not m:
                 m['k%d' % self.rng.randrange(5)] = texts.json_value(self.rng)
             elif r < 0.6:
                 m.pop(self.rng.choice(list(m)))
